@@ -55,16 +55,35 @@ Corollary C12_sign_roundtrip_quarter_hours : forall n e t q,
 Proof. exact sign_roundtrip_quarter_hours. Qed.
 
 (* T3: the whole commit text reads back: tree, parent, both signatures and the
-   message, for every message without '\r' (several lines, blank lines, colons,
-   non-ASCII, trailing newlines, the empty message) *)
+   message, for EVERY message (any bytes: carriage returns, several lines,
+   blank lines, colons, non-ASCII, trailing newlines, the empty message, lines of
+   any length): the reader splits the text at line feeds only *)
 Theorem C12_commit_roundtrip : forall tree parent na ea ta oa nc ec tc oc msg,
   length tree = 20%nat -> (forall p, parent = Some p -> length p = 20%nat) ->
-  sign_ok na ea ta oa -> sign_ok nc ec tc oc -> msg_ok msg ->
+  sign_ok na ea ta oa -> sign_ok nc ec tc oc ->
   parse_commit (commit_text tree (option_map hex parent) (sign_string na ea ta oa)
                             (sign_string nc ec tc oc) msg)
   = Some (mkCommit tree (parent_list parent) (Some (mkSign na ea ta oa))
                    (Some (mkSign nc ec tc oc)) msg).
 Proof. exact commit_roundtrip. Qed.
+
+(* the message part alone: the lines the reader finds in a message followed by
+   its final line feed, joined again, are the message *)
+Theorem C12_message_lines : forall msg, join [c_nl] (lf_lines (msg ++ [c_nl])) = msg.
+Proof. exact msg_lines. Qed.
+
+(* a concrete commit whose message is "l1\r\nl2\r" (a carriage return inside
+   and one at the very end) reads back with exactly that message *)
+Theorem C12_message_with_carriage_returns :
+  parse_commit (commit_text (repeat x01 20) (Some (hex (repeat x02 20)))
+                  (sign_string CommitFacts.ex_name CommitFacts.ex_email 1700000000 (-12600))
+                  (sign_string CommitFacts.ex_name CommitFacts.ex_email 1700000000 50400)
+                  [x6c; x31; c_cr; c_nl; x6c; x32; c_cr])
+  = Some (mkCommit (repeat x01 20) [repeat x02 20]
+            (Some (mkSign CommitFacts.ex_name CommitFacts.ex_email 1700000000 (-12600)))
+            (Some (mkSign CommitFacts.ex_name CommitFacts.ex_email 1700000000 50400))
+            [x6c; x31; c_cr; c_nl; x6c; x32; c_cr]).
+Proof. exact CommitFacts.ex_commit_cr_roundtrip. Qed.
 
 (* non-vacuity: a non-ASCII name with a space, a dotted e-mail with '+', -03:30 *)
 Example C12_nonvacuous : sign_ok CommitFacts.ex_name CommitFacts.ex_email 1700000000 (-12600).
@@ -78,7 +97,7 @@ Theorem C12_log_reads_back_what_was_written : forall st id tree parent na ea ta 
   get_kind st KCommit id
   = Some (commit_text tree (option_map hex parent) (sign_string na ea ta oa) (sign_string nc ec tc oc) msg) ->
   length tree = 20%nat -> (forall p, parent = Some p -> length p = 20%nat) ->
-  sign_ok na ea ta oa -> sign_ok nc ec tc oc -> msg_ok msg ->
+  sign_ok na ea ta oa -> sign_ok nc ec tc oc ->
   log_entry st id = Some (hex id, Some (mkSign na ea ta oa), msg).
 Proof. exact log_entry_of_commit_text. Qed.
 
@@ -91,7 +110,7 @@ Theorem C12_commit_then_log : forall e c msg w root subs h,
   (forall d, In d (subs ++ [root]) -> (lenN d < 2 ^ 63)%N) ->
   (lenN (commit_data e c msg w root) < 2 ^ 63)%N ->
   sign_ok (user_name (x_l c) (x_g c)) (user_email (x_l c) (x_g c)) (e_time e) (e_off e) ->
-  msg_ok msg -> (forall tip, tip_of w = Some tip -> length tip = 20%nat) -> head_ok w c ->
+  (forall tip, tip_of w = Some tip -> length tip = 20%nat) -> head_ok w c ->
   w_coll (run h (after_commit e c msg w root subs)) = false ->
   log_entry (w_objs (run h (after_commit e c msg w root subs))) (commit_id e c msg w root)
   = Some (hex (commit_id e c msg w root),
@@ -104,6 +123,8 @@ Print Assumptions C12_tz_form.
 Print Assumptions C12_sign_roundtrip.
 Print Assumptions C12_sign_roundtrip_quarter_hours.
 Print Assumptions C12_commit_roundtrip.
+Print Assumptions C12_message_lines.
+Print Assumptions C12_message_with_carriage_returns.
 Print Assumptions C12_log_reads_back_what_was_written.
 Print Assumptions C12_commit_then_log.
 Print Assumptions C12_sign_pattern_language.
